@@ -237,6 +237,37 @@ fn gen_case(seed: u64, idx: u64) -> Case {
     Case { k, seg, contigs, later, files: true, origin: format!("random:{idx}") }
 }
 
+/// A reference with more than 65536 k-mers (4-6 boundaries of 65536-element blocks in the sorted
+/// k-mer vector) in which most k-mers occur two or three times, on either strand: blocks of random
+/// sequence, each placed several times.
+fn gen_large_case(seed: u64, idx: u64) -> Case {
+    let mut rng = Rng::new(seed, 1112, idx);
+    let k = *rng.pick(&[11usize, 15, 21, 31, 32]);
+    let seg = rng.range(500, 5000) as usize;
+    let n_blocks = rng.range(30, 80) as usize;
+    let blocks: Vec<Vec<u8>> = (0..n_blocks).map(|_| { let l = rng.range(300, 3000) as usize; rand_seq(&mut rng, l) }).collect();
+    let total = rng.range(150_000, 400_000) as usize;
+    let n_contigs = rng.range(1, 5) as usize;
+    let mut contigs: Vec<Vec<u8>> = vec![vec![]; n_contigs];
+    let mut have = 0usize;
+    while have < total {
+        let b = rng.pick(&blocks).clone();
+        let b = if rng.chance(1, 3) { rc_contig(&b) } else { b };
+        let ci = rng.below(n_contigs as u64) as usize;
+        have += b.len();
+        contigs[ci].extend_from_slice(&b);
+        if rng.chance(1, 4) {
+            // unique spacer (singleton k-mers between the repeated blocks)
+            let l = rng.range(k as u64, 400) as usize;
+            let u = rand_seq(&mut rng, l);
+            have += u.len();
+            contigs[ci].extend_from_slice(&u);
+        }
+    }
+    let later = vec![("alt#1#c0".to_string(), rng.pick(&blocks).clone())];
+    Case { k, seg, contigs, later, files: true, origin: format!("large:{idx}") }
+}
+
 struct Pools(Vec<(usize, rayon::ThreadPool)>);
 
 fn write_file(path: &Path, bytes: &[u8]) {
@@ -334,7 +365,13 @@ fn eval_case(ctx: &mut Ctx, rep: &mut Report, pools: &Pools, c: &Case, case_no: 
         seg,
         if c.contigs.is_empty() { "[]".to_string() } else { c.contigs.iter().map(|x| hex(x)).collect::<Vec<_>>().join(",") }
     );
-    if let Some(m) = ctx.ask(&req) {
+    // large references (> 65536 k-mers: parallel block paths) run against the direct oracles only —
+    // the list-based model is quadratic in places
+    let large = c.contigs.iter().map(|x| x.len()).sum::<usize>() > 66_000;
+    if large {
+        rep.count("branch_large_reference");
+    }
+    if let Some(m) = if large { None } else { ctx.ask(&req) } {
         for (v, n, s) in &strs {
             if *s != m {
                 rep.disagree(&format!("splitters/{v}/threads={n}"), case.clone(), &m, s);
@@ -343,7 +380,7 @@ fn eval_case(ctx: &mut Ctx, rep: &mut Report, pools: &Pools, c: &Case, case_no: 
         }
     }
     // the record-selection rule of the first-sample variant (leading run of the first sample name)
-    if c.files {
+    if c.files && !large {
         for (variant, recs) in [("first-sample", &pansn_recs), ("first-sample-plain", &plain_recs)] {
             let req = format!(
                 "splitters-first {} {} {}",
@@ -648,7 +685,8 @@ pub fn run(ctx: &mut Ctx) -> Report {
         "(1) all single contigs up to length 6 over {A,C,T,N} and all pairs of contigs up to length 4 over {A,C,T}, k=3, segment size 1 and 3 \
          (in-memory variant); (2) random references of 1-8 contigs (lengths 0..6000, N runs, IUPAC codes, exact and reverse-complemented repeats, \
          duplicated and reverse-complemented contigs, contigs shorter than k, low-complexity contigs), k 3..32, segment size 10..2000, the three \
-         variants from files under rayon pools of 1/2/4/16 threads, PanSN file with later samples; (3) sorted vectors for remove_non_singletons. \
+         variants from files under rayon pools of 1/2/4/16 threads, PanSN file with later samples; (2b) large references (150-400 kb, > 65536 k-mers, \
+         most k-mers repeated on either strand) against the direct oracles only; (3) sorted vectors for remove_non_singletons. \
          A case is non-trivial if at least one splitter is selected; distinct by (k, segment size, contigs)",
     );
     let pools = Pools(
@@ -707,6 +745,12 @@ pub fn run(ctx: &mut Ctx) -> Report {
     for i in 0..n_rand {
         let c = gen_case(ctx.seed, i);
         eval_case(ctx, &mut rep, &pools, &c, 1_000_000 + i);
+    }
+    // 2b. large references: more than 65536 k-mers, most of them repeated (block-parallel paths)
+    let n_large = ctx.t(3u64, 16u64);
+    for i in 0..n_large {
+        let c = gen_large_case(ctx.seed, i);
+        eval_case(ctx, &mut rep, &pools, &c, 2_000_000 + i);
     }
     // 3. remove_non_singletons on sorted vectors
     let n_rm = ctx.t(2000u64, 20000u64);
